@@ -130,8 +130,22 @@ def check_written(case, built, text, ctx: Ctx, check_preserve: bool):
     fam_of = {m: fi for fi, fam in enumerate(fams) for m in fam}
     pos = [np.array(v.pos) for v in bmd.vertices]
     arcs = arc_lengths(bmd)
-    if len(arcs) != len(built.arcs):
-        raise Violation("arc-entries", f"{len(built.arcs)} arc edges declared, {len(arcs)} written", **facts)
+    # the library writes a straight line for an arc whose three points are collinear within its absolute tolerance
+    # (|(a - p) x (b - p)| <= 1e-7, a recorded finding of C08 for tiny models): such arcs may be missing
+    must, may = 0, 0
+    for arc in built.arcs:
+        pts = built.points[arc["op"]]
+        a, b_ = pts[arc["corners"][0]], pts[arc["corners"][1]]
+        cross = float(np.linalg.norm(np.cross(a - np.array(arc["point"]), b_ - np.array(arc["point"]))))
+        if cross > 2e-7:
+            must += 1
+        elif cross >= 0.5e-7:
+            may += 1
+    if not must <= len(arcs) <= must + may:
+        raise Violation("arc-entries", f"{len(built.arcs)} arc edges declared ({must} well above the collinearity "
+                        f"tolerance, {may} near it), {len(arcs)} written", **facts)
+    if len(arcs) < len(built.arcs):
+        ctx.label("arc-below-tolerance-written-as-line")
     if arcs:
         ctx.label("curved-edges")
     spread = 0.0
@@ -222,6 +236,10 @@ def graded_case(draw, multi: bool, curved: bool = False):
     case["jitter_after_assembly"] = draw(st.integers(0, 3)) == 0 and not curved
     case["write_before_move"] = draw(st.booleans())
     case["history"] = draw(st.sampled_from(["write", "write", "write-write"]))
+    if curved and draw(st.booleans()):
+        # small models (millimetres and below, in metres): the library's absolute tolerances come into play
+        case["scale"] = draw(st.sampled_from([1e-2, 1e-3, 5e-4]))
+        case.pop("offset", None)
     if not case["jitter_after_assembly"]:
         case["arcs"] = lt.draw_arcs(draw, case, prefer_shared=True, min_arcs=1 if curved else 0, max_arcs=3 if curved else 2)
     if multi:
